@@ -357,6 +357,46 @@ static void run_fmt(int total, int level, int len, int shape, bool noalloc, int 
     }
 }
 
+/* NADEF <filter> <level> <len>: two no-alloc loggers in a row on the default destination (neither a stream nor a file name:
+ * the process's stderr, redirected into an anonymous memory file for the duration), one log call each; afterwards stderr must
+ * still take a line from the program itself.  lines = complete lines that arrived from the two loggers. */
+static void run_noalloc_default(int filter, int level, int len) {
+    fflush(stderr);
+    int saved = dup(2);
+    int mfd = memfd_create("verif-stderr", 0);
+    if (saved < 0 || mfd < 0) {
+        return;
+    }
+    dup2(mfd, 2);
+    for (int round = 0; round < 2; ++round) {
+        struct aws_logger_standard_options opt = {.level = (enum aws_log_level)filter, .filename = NULL, .file = NULL};
+        struct aws_logger nl;
+        aws_logger_init_noalloc(&nl, vh_alloc(), &opt);
+        aws_logger_set(&nl);
+        emit_log(level, 8, round + 1, len, 0, 0);
+        aws_logger_set(NULL);
+        aws_logger_clean_up(&nl);
+    }
+    int alive = fprintf(stderr, "#still-open\n") > 0 && fflush(stderr) == 0;
+    dup2(saved, 2);
+    close(saved);
+    char buf[8192];
+    ssize_t n = pread(mfd, buf, sizeof(buf) - 1, 0);
+    close(mfd);
+    int lines = 0, mine = 0;
+    for (ssize_t i = 0; i < n; ++i) {
+        lines += buf[i] == '\n';
+    }
+    buf[n > 0 ? n : 0] = 0;
+    mine = strstr(buf, "#still-open\n") != NULL;
+    vh_begin("NoAllocDefault");
+    vh_int("filter", filter);
+    vh_int("level", level);
+    vh_int("lines", lines - mine);
+    vh_int("alive", alive && mine);
+    vh_end();
+}
+
 int fmt_tramp(struct aws_logging_standard_formatting_data *d, const char *fmt, ...) {
     va_list ap;
     va_start(ap, fmt);
@@ -437,6 +477,9 @@ static void scenario(char **lines, int nlines) {
             vh_int("cond", aws_logger_get_conditional(AWS_LS_COMMON_GENERAL, (enum aws_log_level)level) != NULL);
             vh_int("leak", vh_live_blocks != before);
             vh_end();
+        } else if (strcmp(tok, "NADEF") == 0) {
+            int f = atoi(strtok_r(NULL, " ", &save)), level = atoi(strtok_r(NULL, " ", &save));
+            run_noalloc_default(f, level, atoi(strtok_r(NULL, " ", &save)));
         } else if (strcmp(tok, "NOALLOC") == 0) {
             int f = atoi(strtok_r(NULL, " ", &save)), level = atoi(strtok_r(NULL, " ", &save));
             int len = atoi(strtok_r(NULL, " ", &save)), shape = atoi(strtok_r(NULL, " ", &save));
